@@ -480,6 +480,11 @@ func craftedGrammars() []*lexGrammar {
 	add(fam("class", idRule(plus(cls(false, 'a', 'z', 0xe9, 0xe9))), kw("é"), kw("éa"), kw("b")))
 	add(fam("class", idRule(rxref.Cat(cls(false, 'a', 'b'), star(cls(false, 'a', 'b', 'A', 'A')))), kw("a"), kw("aA"), kw("bAb"), wsRule()))
 
+	// class rules the compiler has to reject (empty match, two identical class rules): the rejection
+	// is counted; an accepted grammar is reported (see run)
+	add(fam("class", idRule(star(cls(false, 'a', 'z'))), kw("ab"), R("t0", lits("A")))).Tags = []string{"class:invalid"}
+	add(fam("class", idRule(az()), R("id2", plus(cls(false, 'a', 'b'))).class(), kw("ab"), R("t0", lits("A")))).Tags = []string{"class:invalid"}
+
 	// --- (space) rules, explicit and implicit invalid tokens, newlines
 	add(fam("space", R("t0", plus(lits("a"))), wsRule()))
 	add(fam("space", R("t0", plus(lits("a"))), R("sp", lits(" ")).space(), R("nl", lits("\n")).space()))
@@ -535,11 +540,16 @@ func craftedGrammars() []*lexGrammar {
 	big(fam("maps", R("e", plus(lits("😀"))), R("t0", plus(cls(false, 'a', 'b')))))
 	big(fam("maps", R("n", plus(cls(true, 'a', 'a', '\n', '\n', ' ', ' '))), R("t0", lits("a"))))
 	big(fam("maps", R("l", plus(letterL)).text(`\p{L}+`), R("e", cls(false, 0x1f600, 0x1f64f))))
-	big(fam("maps", R("lu", tableClass(unicode.Lu)).text(`\p{Lu}`), R("ll", plus(tableClass(unicode.Ll))).text(`\p{Ll}+`)))
+	// (inside brackets: how a stand-alone \p{Lu} behaves under caseInsensitive is C10's business)
+	big(fam("maps", R("lu", tableClass(unicode.Lu)).text(`[\p{Lu}]`), R("ll", plus(tableClass(unicode.Ll))).text(`[\p{Ll}]+`)))
 	big(fam("maps", R("t0", plus(lits("é"))), R("t1", cls(false, 0x80, 0xff)).prio(-1), R("e", lits("😀"))))
 	big(fam("maps", R("any", rxref.Dot()).prio(-1), R("e", lits("😀")), R("ee", lits("😀😀"))))
 	big(fam("maps", R("r1", plus(cls(false, 0x100, 0x108))), R("r2", plus(cls(false, 0x10a, 0x112))), R("r3", cls(false, 0x2000, 0x2009)), R("t0", lits("a")))) // short ranges with gaps: one compressed entry
 	big(fam("maps", R("r1", cls(false, 0x100, 0x100, 0x102, 0x102, 0x104, 0x104)), R("r2", cls(false, 0x101, 0x101, 0x103, 0x103)), R("r3", plus(cls(false, 0x900, 0x97f))), R("t0", plus(lits("a")))))
+	// last map entry between U+0800 and U+1000 (no letters with case variants)
+	big(fam("maps", R("dev", plus(cls(false, 0x900, 0x97f))), R("t0", lits("a"))))
+	big(fam("maps", R("thai", plus(cls(false, 0xe01, 0xe3a))), R("dev", cls(false, 0x900, 0x97f)), R("t0", plus(lits("b")))))
+	big(fam("maps", R("dev", plus(cls(false, 0x900, 0x97f))), R("thai", plus(cls(false, 0xe01, 0xe3a))), wsRule()))
 	big(fam("maps", R("l", plus(letterL)).text(`\p{L}+`), R("nd", plus(tableClass(unicode.Nd))).text(`\p{Nd}+`), R("e", lits("😀")), wsRule()))
 
 	// --- equal-length matches and explicit priorities
